@@ -432,3 +432,63 @@ func VerifC07Version() {
 	}
 	vAssert((err == nil) == (v == 3), "C07.version-gate")
 }
+
+// VerifC07Defaults: names of a length at which default symbols exist (4: read, time, role, user, team,
+// path, node; 5: write, right, owner, admin, email, group, nonce, query). The solver decides whether a
+// name IS a default symbol; the block's table must then not repeat it and the index must be the
+// default one.
+func VerifC07Defaults() {
+	vForbidPanic("C07")
+	n := vParam("namelen")
+	rng := &chainRNG{}
+	root := ed25519Key(vWide("root", 32))
+	name := vString("name", n)
+	str := vString("str", n)
+	c := wContent{facts: []Fact{{Predicate{Name: name, IDs: []Term{String(str)}}}}}
+	b := NewBuilder(root, WithRNG(rng))
+	b.AddAuthorityFact(c.facts[0])
+	tok, err := b.Build()
+	vAssert(err == nil, "C07.build")
+	if err != nil {
+		return
+	}
+	// a block that uses the same two strings again plus a default symbol by its text
+	bc := wContent{facts: []Fact{{Predicate{Name: str, IDs: []Term{String(name), String("query")}}}}}
+	bb := tok.CreateBlock()
+	bb.AddFact(bc.facts[0])
+	tok2, err := tok.Append(rng, bb.Build())
+	vAssert(err == nil, "C07.append")
+	if err != nil {
+		return
+	}
+	data, err := tok2.Serialize()
+	vAssert(err == nil, "C07.serialize")
+	if err != nil {
+		return
+	}
+	var env pb.Biscuit
+	vAssert(proto.Unmarshal(data, &env) == nil, "C07.decode-envelope")
+	if env.Authority == nil || len(env.Blocks) != 1 {
+		vAssert(false, "C07.envelope-shape")
+		return
+	}
+	pa, ok1 := wDecodeBlock(env.Authority.Block)
+	pbk, ok2 := wDecodeBlock(env.Blocks[0].Block)
+	if !ok1 || !ok2 {
+		vAssert(false, "C07.decode-blocks")
+		return
+	}
+	vCover("decoded")
+	if len(pa.Symbols) < 2 {
+		vCover("default-or-shared-symbol")
+	}
+	vAssert(wBlockOK(pa, c, nil), "C07.defaults.authority-content")
+	vAssert(wBlockOK(pbk, bc, pa.Symbols), "C07.defaults.block-content")
+	vAssert(len(pbk.Symbols) == 0, "C07.defaults.block-adds-no-symbol")
+	re, err := Unmarshal(data)
+	vAssert(err == nil, "C07.unmarshal")
+	if err == nil {
+		d2, err := re.Serialize()
+		vAssert(err == nil && vBytesEq(data, d2), "C07.reserialize-same-bytes")
+	}
+}
